@@ -135,7 +135,10 @@ type callCtx struct {
 type sys struct {
 	baseName string
 	plan     string // none | okfunc | readonly | fault
-	when     string // when the function of the plan is installed, replaced, removed (when.go); "": before the first call
+	when     string // the part of the plan name after '@': schedule[~family]
+	sched    string // when the function of the plan is installed, replaced, removed (when.go); "": before the first call
+	famName  string // family of derived file systems the history starts with and the member SetFailFunc is called on (family.go); "": none
+	fam      *family
 	stack    string // what the FailFS under test is built on besides the bare base (stack.go); "": the base itself
 	lowerFn  string // ff-ro-mid stack: the function the lower FailFS carries now
 	ops      []op
@@ -153,6 +156,10 @@ type sys struct {
 	fnNext    int
 	gen       int    // number of the recording function installed now; -1: none
 	installed string // "": nothing yet | plan | plan#1 | removed
+
+	// family of file systems derived from the FailFS before the history begins (family.go)
+	members map[string]avfs.VFS
+	setup   bool // the family is being built: consultations are not part of any history
 
 	// recorder
 	trace   []consRec
@@ -300,7 +307,8 @@ func (s *sys) Reset() error {
 	}
 
 	if !knownStack(s.stack) || (s.stack != "" && s.plan == "readonly") || (planOnLower(s.stack) && s.plan == "none") ||
-		s.fnEvents == nil || (s.when != "" && (s.stack != "" || s.plan == "none")) || (s.when == whenSwap && s.plan == "readonly") {
+		s.fnEvents == nil || (s.when != "" && (s.stack != "" || s.plan == "none")) || (s.sched == whenSwap && s.plan == "readonly") ||
+		(s.fam != nil && s.baseName != "MemFS") {
 		return fmt.Errorf("no system %s", sysName(s.baseName, planWhen(s.plan, s.when), s.stack))
 	}
 
@@ -385,6 +393,15 @@ func (s *sys) Reset() error {
 	}
 
 	s.setupChecked = true
+	s.members = nil
+
+	// the file systems derived before the history begins, and in the order "pre"
+	// the SetFailFunc calls made while they are derived (family.go)
+	if s.fam != nil {
+		if err := s.buildFamily(); err != nil {
+			return err
+		}
+	}
 
 	// the SetFailFunc calls that precede the first call of the history (when.go)
 	s.advanceFn(0)
@@ -646,6 +663,10 @@ func (s *sys) failFn(v avfs.VFSBase, fn avfs.FnVFS, fp *failfs.FailParam) error 
 // consult is the body of every recording failure function of the system; gen
 // says which of them was called.
 func (s *sys) consult(gen int, _ avfs.VFSBase, fn avfs.FnVFS, fp *failfs.FailParam) error {
+	if s.setup {
+		return nil // a Sub call that derives the family of the start state (family.go): not a call of the history
+	}
+
 	st := baseState(s.impl.base)
 
 	s.checkPending(st, "next-consultation")
@@ -691,8 +712,12 @@ func (s *sys) sig(ctx callCtx, kind, want, got string) map[string]string {
 		m["stack"] = s.stack
 	}
 
-	if s.when != "" {
-		m["when"] = s.when
+	if s.sched != "" {
+		m["when"] = s.sched
+	}
+
+	if s.famName != "" {
+		m["family"] = s.famName
 	}
 
 	return m
@@ -911,7 +936,9 @@ func (s *sys) apply(sd *side, which int, o op, idx int, skipClose bool) (out ste
 			return stepOut{NA: true}
 		}
 	case "sub":
-		if sd.sub != nil {
+		// s=failfs.Sub(p) fills the empty slot; s=sub.Sub(p) replaces the pooled view
+		// by a view derived from it (family.go: depth of derivation)
+		if sd.sub != nil && o.Thru != "sub" {
 			return stepOut{NA: true}
 		}
 	}
@@ -961,13 +988,29 @@ func (s *sys) apply(sd *side, which int, o op, idx int, skipClose bool) (out ste
 	}
 
 	if out.Main.Sub != nil && o.Store == "sub" {
-		sd.sub, sd.suborig, sd.subObs = out.Main.Sub, o.C.String(), nil
+		// the same subtree obtained from the base directly: from the base, or, for a
+		// view derived from the pooled view, from the subtree that view sees
+		var from avfs.VFS = sd.base
 
-		fsx.Guard(func() {
-			if b, err := sd.base.Sub(o.C.A); err == nil {
-				sd.subObs, _ = b.(hooked)
+		orig := o.C.String()
+
+		if o.Thru == "sub" {
+			from, orig = nil, sd.suborig+">"+orig // the chain of Sub calls is part of the state: depth matters
+
+			if sd.subObs != nil {
+				from = sd.subObs
 			}
-		})
+		}
+
+		sd.sub, sd.suborig, sd.subObs = out.Main.Sub, orig, nil
+
+		if from != nil {
+			fsx.Guard(func() {
+				if b, err := from.Sub(o.C.A); err == nil {
+					sd.subObs, _ = b.(hooked)
+				}
+			})
+		}
 	}
 
 	return out
